@@ -1,6 +1,7 @@
 import CoapVerif.Model.Exchange
 /- Line-protocol driver for C07: replays a schedule of harness/exchange.c through the model. -/
 -- DRIVER-OPS: xchg => Coap.Driver.Exchange.step
+-- DRIVER-OPS: xchg2 => Coap.Driver.Exchange.step2
 namespace Coap.Driver.Exchange
 open Coap.Exch
 
@@ -103,6 +104,18 @@ def step (args : List String) : String :=
         ["st:ca=" ++ toString fin.c.L.conActive ++ ",sq=" ++ toString fin.c.L.sendq.length ++ ",dq=" ++
          toString fin.c.L.delayq.length ++ ",q=" ++ (if fin.quiescent then "1" else "0")]
       "M " ++ String.intercalate " " (tr ++ tail)
+    | _, _, _, _, _, _, _, _, _ => "bad-op"
+  | _ => "bad-op"
+
+/-- `xchg2 …`: two client sessions with equal message ids in one context (harness/exchange.c).  The context-wide send
+    queue shared by several sessions is not part of M (`Layer` is one session's view; the queue itself is C06's model):
+    the line is checked for well-formedness only and the implementation's trace is judged by the oracle alone. -/
+def step2 (args : List String) : String :=
+  match args with
+  | [p, d, cm, sm, rc, rs, mode, reqs, verd, fates] =>
+    match parsePers p, d.toNat?, cm.toNat?, sm.toNat?, rc.toNat?, rs.toNat?, parseReqs reqs, parseVerdicts verd, parseFates fates with
+    | some _, some D, some _, some _, some _, some _, some rq, some _, some _ =>
+      if D < 1 || mode != "q" || rq.isEmpty || (reqs.toList.any (· == '/')) then "bad-op" else "M -"
     | _, _, _, _, _, _, _, _, _ => "bad-op"
   | _ => "bad-op"
 
